@@ -15,6 +15,9 @@ package composite
 //@   ensures [C03] err != nil ==> m == nil
 
 //@ func parentController.syncRevisions(pc, parent, observedChildren, relatedObjects) (res, err)
+//@   requires validRM0(pc.customize)
+//@   requires factoryInv(pc.customize.dynInformers)
+//@   requires validRMInf(pc.customize)
 //@   requires validPC(pc) && parent != nil
 //@   writes-assumed fresh, pc.customize
 //@   ensures [C09] err != nil ==> res == nil
@@ -36,6 +39,9 @@ package composite
 //@   requires validPC(pc)
 
 //@ func parentController.syncParentObject(pc, parent) (err)
+//@   requires validRM0(pc.customize)
+//@   requires factoryInv(pc.customize.dynInformers)
+//@   requires validRMInf(pc.customize)
 //@   requires validPC(pc) && validChildInformers(pc) && parent != nil
 //@   safety C13
 //@   bind call Manager.SyncObject: updatedParent, soErr
@@ -90,6 +96,9 @@ package composite
 //@   ensures [C11,C01] !changed ==> (forall k string :: has(obj.Object, k) == old(has(obj.Object, k)) && obj.Object[k] == old(obj.Object[k]))
 
 //@ func parentController.sync(pc, key) (err)
+//@   requires validRM0(pc.customize)
+//@   requires factoryInv(pc.customize.dynInformers)
+//@   requires validRMInf(pc.customize)
 //@   requires validPC(pc) && validChildInformers(pc)
 //@   safety C13
 //@   bind call parentController.syncParentObject: spoErr
@@ -98,6 +107,9 @@ package composite
 //@   ensures [C12] called(parentController.syncParentObject) && isTMR(spoErr) ==> err == nil && called(AddAfter)
 
 //@ func parentController.processNextWorkItem(pc) (more)
+//@   requires validRM0(pc.customize)
+//@   requires factoryInv(pc.customize.dynInformers)
+//@   requires validRMInf(pc.customize)
 //@   requires validPC(pc) && validChildInformers(pc)
 //@   safety C13
 //@   bind call parentController.sync: syncErr
